@@ -10,6 +10,7 @@
 From Coq Require Import NArith List Bool Arith.
 Import ListNotations.
 From HV Require Import lib.Harness model.Types model.Resolve spec.ResolveS proofs.ResolveP.
+From HV Require Import model.SerialHugr model.ResolveHugr spec.ResolveHugrS proofs.ResolveHugrP.
 
 (* ---- replaced exactly when the registry holds an extension of that name with a definition of that name *)
 Theorem C11_resolve_exactly_when_defined : forall reg, RegWF reg ->
@@ -119,6 +120,146 @@ Example C11_example :
                 ser_op (resolve_op Ex.reg (OCustom Ex.c)) = Some (OCustom s') /\ c_descr s <> c_descr s').
 Proof. exact ex_nontrivial. Qed.
 
+(* ====================================================================================================
+   Second pass: Hugr.resolve_extensions on the whole HUGR (model/ResolveHugr.v over the HUGR record of
+   model/SerialHugr.v: node table with holes, operation / parent / ordered children / metadata / recorded port
+   counts per node, links, root; constants hold the HUGRs of their function values, to any depth).
+
+   Scope: the property speaks of the opaque operations of the HUGR being resolved, i.e. of its nodes, and of the
+   depths "sums, function types, type arguments, arguments of opaque types".  The HUGR held by a function value
+   inside a constant is not made of nodes of that HUGR: hugr-py's resolve_extensions leaves it alone, and under
+   "leaves everything else untouched" it belongs to the frame (C11_hugr_constants_untouched).  hugr-core's
+   resolve_value_exts does descend into function values; that difference is outside this property.
+   ==================================================================================================== *)
+
+(* ---- the loop `for node in self: self[node].op = ...` rewrites `op` fields and nothing else: it equals
+   the node table with resolve_hop mapped over the operations, slot by slot *)
+Theorem C11_hugr_loop_is_map : forall reg h,
+  resolve_extensions reg h = map_hugr (resolve_hop reg) h /\
+  (forall i, get_node (resolve_extensions reg h) i = option_map (map_node (resolve_hop reg)) (get_node h i)).
+Proof. exact hugr_loop_is_map_thm. Qed.
+
+(* ---- (a) the frame: root, links, holes, and per live node parent, children in order, metadata and recorded port
+   counts are untouched; the live indices (iteration order) and the table length are the same *)
+Theorem C11_hugr_frame : forall reg h,
+  same_frame h (resolve_extensions reg h) /\ live (resolve_extensions reg h) = live h /\
+  length (h_nodes (resolve_extensions reg h)) = length (h_nodes h).
+Proof. exact hugr_frame_thm. Qed.
+
+(* ---- (a) exactly the opaque operations the registry defines are replaced, at every node of the HUGR, each as the
+   per-operation relation ROp says; every other operation - constants with all they hold included - identical *)
+Theorem C11_hugr_resolve_pointwise : forall reg, RegWF reg ->
+  (forall h, RHugr reg h (resolve_extensions reg h)) /\ (forall o, RHop reg o (resolve_hop reg o)).
+Proof. exact hugr_resolve_pointwise_thm. Qed.
+
+(* ---- (a) a node's operation changes iff it is an opaque operation with a definition in the registry; a HUGR
+   without any is returned as it was; a node without one keeps its whole entry *)
+Theorem C11_hugr_only_defined_ops_change : forall reg,
+  (forall o, hop_holds (untouchable_op reg) o = true -> resolve_hop reg o = o) /\
+  (RegWF reg -> forall o, resolve_hop reg o = o -> hop_holds (untouchable_op reg) o = true) /\
+  (forall h, hugr_all (untouchable_op reg) h = true -> resolve_extensions reg h = h) /\
+  (forall h i n, get_node h i = Some n -> hop_holds (untouchable_op reg) (SerialHugr.n_op n) = true ->
+                 get_node (resolve_extensions reg h) i = Some n).
+Proof. exact hugr_only_defined_ops_change_thm. Qed.
+
+(* ---- (a) function-valued constants and their bodies are part of the frame: a constant is returned as it is
+   whatever its value holds, its node entry is unchanged, and both the monitor's boolean and the relation RHop
+   accept nothing but the identical constant (a change inside the HUGR of a function value is a violation of
+   "leaves everything else untouched") *)
+Theorem C11_hugr_constants_untouched : forall reg,
+  (forall v, resolve_hop reg (HConst v) = HConst v) /\
+  (forall h i n v, get_node h i = Some n -> SerialHugr.n_op n = HConst v ->
+                   get_node (resolve_extensions reg h) i = Some n) /\
+  (forall v o, rhop_b reg (HConst v) o = true -> o = HConst v) /\
+  (forall v o, RHop reg (HConst v) o -> o = HConst v).
+Proof. exact hugr_constants_untouched_thm. Qed.
+
+(* ---- every depth, at HUGR level: in a HUGR as loading produces it (opaque operations only, no definition-backed
+   type) no resolved operation keeps a resolvable opaque type at any depth of its signature or type arguments *)
+Theorem C11_hugr_reaches_every_depth : forall reg, RegWF reg ->
+  (forall h, hugr_all op_loaded h = true -> hugr_all (op_clean reg) (resolve_extensions reg h) = true) /\
+  (forall o, op_loaded o = true -> op_clean reg (resolve_op reg o) = true).
+Proof. exact hugr_reaches_every_depth_thm. Qed.
+
+(* ---- (b) resolving twice equals resolving once, for the whole HUGR (no guard) *)
+Theorem C11_hugr_idempotent : forall reg,
+  (forall h, resolve_extensions reg (resolve_extensions reg h) = resolve_extensions reg h) /\
+  (forall o, resolve_hop reg (resolve_hop reg o) = resolve_hop reg o).
+Proof. exact hugr_idempotent_thm. Qed.
+
+(* ---- (c) the serialised document (Hugr._to_serial of model/SerialHugr.v with the encoder ser_hop; the documents
+   of function values nested inside constants) is unchanged: same edges, same metadata, same parents, identical
+   constants, same operations except that the description of an Extension operation at a node may have become
+   that of a definition filed under its name *)
+Theorem C11_hugr_document_unchanged : forall reg, RegWF reg ->
+  (forall h s, consistent_hugr reg h = true -> hugr_doc h = Some s ->
+     exists s', hugr_doc (resolve_extensions reg h) = Some s' /\ SameDoc reg s s') /\
+  (forall b, ser_val (VFunc b) = match to_serial ser_hop hop_ndp md_is_nil b with
+                                 | Some d => option_map SVFunc (seq_serial d)
+                                 | None => None
+                                 end).
+Proof. exact hugr_document_thm. Qed.
+
+(* the same through an arbitrary encoder: for any `enc`, any dataflow-port-count function and any rewriting f of
+   the operations that keeps the port counts and relates the encodings by R, Hugr._to_serial of the HUGR and of
+   the rewritten HUGR both fail or both succeed, with the same edges and metadata and node lists related position
+   by position (same parent, operations related by R) *)
+Theorem C11_document_frame_through_enc :
+  forall (A S M : Type) (enc : A -> S) (ndp : A -> dir -> option nat) (nil : M -> bool) (f : A -> A)
+         (R : S -> S -> Prop) (h : hugr A M),
+  (forall n, In (Some n) (h_nodes h) ->
+     (forall d, ndp (f (SerialHugr.n_op n)) d = ndp (SerialHugr.n_op n) d) /\
+    R (enc (SerialHugr.n_op n)) (enc (f (SerialHugr.n_op n)))) ->
+  match to_serial enc ndp nil h, to_serial enc ndp nil (map_hugr f h) with
+  | Some s, Some s' =>
+      s_edges s' = s_edges s /\ s_meta s' = s_meta s /\
+     Forall2 (fun a b => s_parent b = s_parent a /\ R (s_op a) (s_op b)) (s_nodes s) (s_nodes s')
+  | None, None => True
+  | _, _ => False
+  end.
+Proof. exact document_frame_through_enc_thm. Qed.
+
+(* ---- (d) Hugr.port_type of every out port: identical, or (only at a node whose opaque operation has a definition)
+   the resolved type; related by RTy; identical at nodes holding nothing the registry defines; same bound and
+   same serial form; the dataflow port counts of every operation are unchanged *)
+Theorem C11_hugr_port_types : forall reg h i k,
+  (port_type (resolve_extensions reg h) i k = port_type h i k \/
+   exists n c, get_node h i = Some n /\ SerialHugr.n_op n = HOp (OCustom c) /\
+               lookup_op reg (c_ext c) (c_name c) <> None /\
+               port_type (resolve_extensions reg h) i k = option_map (resolve_ty reg) (port_type h i k)) /\
+  (RegWF reg -> port_type_rel reg (port_type h i k) (port_type (resolve_extensions reg h) i k)) /\
+  (forall n, get_node h i = Some n -> hop_holds (untouchable_op reg) (SerialHugr.n_op n) = true ->
+             port_type (resolve_extensions reg h) i k = port_type h i k) /\
+  (RegWF reg -> consistent_hugr reg h = true ->
+     option_map tbound (port_type (resolve_extensions reg h) i k) = option_map tbound (port_type h i k) /\
+     option_map ser_ty (port_type (resolve_extensions reg h) i k) = option_map ser_ty (port_type h i k)) /\
+  (forall d n, get_node h i = Some n ->
+     hop_ndp (resolve_hop reg (SerialHugr.n_op n)) d = hop_ndp (SerialHugr.n_op n) d).
+Proof. exact hugr_port_types_thm. Qed.
+
+(* ---- what the monitor computes on the implementation's dumps is sound for the relations above *)
+Theorem C11_hugr_monitor_sound : forall reg,
+  (forall h h', rhugr_b reg h h' = true -> RHugr reg h h') /\
+  (forall d d', same_doc_b reg d d' = true -> SameDoc reg d d') /\
+  (forall a b, port_type_rel_b reg a b = true -> port_type_rel reg a b).
+Proof. exact hugr_monitor_sound_thm. Qed.
+
+(* ---- the guards hold of a HUGR with a hole, an opaque operation with more recorded out ports than its signature,
+   value and order links, and a constant whose sum value holds a function value whose body holds the operation
+   again; resolution changes the node's operation, the document changes in that description only, a port type
+   changes to its resolved form, and the constant's entry - with the resolvable operation inside - is unchanged *)
+Example C11_hugr_example :
+  RegWF Ex.reg /\ consistent_hugr Ex.reg ExH.h = true /\ hugr_all (untouchable_op Ex.reg) ExH.h = false /\
+  get_node ExH.h 1 = None /\
+  hugr_eqb (resolve_extensions Ex.reg ExH.h) ExH.h = false /\ rhugr_b Ex.reg ExH.h (resolve_extensions Ex.reg ExH.h) = true /\
+  (exists s s', hugr_doc ExH.h = Some s /\ hugr_doc (resolve_extensions Ex.reg ExH.h) = Some s' /\
+                doc_eqb s s' = false /\ same_doc_b Ex.reg s s' = true) /\
+  (exists t, port_type ExH.h 2 0 = Some t /\ port_type (resolve_extensions Ex.reg ExH.h) 2 0 = Some (resolve_ty Ex.reg t) /\
+             ty_eqb (resolve_ty Ex.reg t) t = false) /\
+  port_type ExH.h 2 1 = None /\
+  get_node (resolve_extensions Ex.reg ExH.h) 3 = get_node ExH.h 3 /\ hugr_all (untouchable_op Ex.reg) ExH.body = false.
+Proof. exact exh_nontrivial. Qed.
+
 Print Assumptions C11_resolve_exactly_when_defined.
 Print Assumptions C11_resolve_pointwise.
 Print Assumptions C11_monitor_relation_sound.
@@ -130,3 +271,14 @@ Print Assumptions C11_resolve_preserves_encoding.
 Print Assumptions C11_resolve_preserves_model_export.
 Print Assumptions C11_resolve_preserves_facts.
 Print Assumptions C11_resolve_idempotent.
+Print Assumptions C11_hugr_loop_is_map.
+Print Assumptions C11_hugr_frame.
+Print Assumptions C11_hugr_resolve_pointwise.
+Print Assumptions C11_hugr_only_defined_ops_change.
+Print Assumptions C11_hugr_idempotent.
+Print Assumptions C11_hugr_document_unchanged.
+Print Assumptions C11_document_frame_through_enc.
+Print Assumptions C11_hugr_port_types.
+Print Assumptions C11_hugr_monitor_sound.
+Print Assumptions C11_hugr_reaches_every_depth.
+Print Assumptions C11_hugr_constants_untouched.
